@@ -23,11 +23,13 @@ from sa.pyfront import Program
 from sa.symex import Interp
 
 RULES = {
+    "R-C03-h": "every near-zero test that decides 'this differenced counter is zero' (adjust_zeros' default, ffunc_count/xfunc_count.reduce) uses isclose(x, 0) with NumPy's default absolute tolerance, as documented - not a narrower one",
     "R-C03-a": "ffunc_X.__init__ and xfunc_X.__init__ normalise to the same row arrays, for each weight mode",
     "R-C03-b": "per region role, every fill branch of the array cube equals the index cube's cell reducer; every index-cube corner is the all-rows instance of its cell value",
     "R-C03-c": "the missing-cell predicate table is identical for ffunc_X and xfunc_X",
     "R-C03-d": "the value that becomes xcube.interacting_shape is a Python int at the sink (not a NumPy scalar of the dimension's dtype)",
     "R-C03-f": "index-cube counters that went through marginal differencing are tested against 0 exactly only when integral or after adjust_zeros(new=0): the array cube's directly filled counters then give the same missing cells",
+    "R-C03-g": "every array-cube sub-cube task reaches its fill calls: the task function has no early return (none exists today; a new one cannot be judged and is reported as undecided)",
     "R-C03-e": "strided_dims multiplies coordinates only after astype(mintype); mintype is chosen against the total product of extents",
 }
 
@@ -192,6 +194,24 @@ def rule_strides(prog, rep):
     rep.check(ok2, "R-C03-e", fset.fq, "mintype is the first unsigned type whose maximum is >= the total number of cells", why, why)
 
 
+def rule_g(prog, rep):
+    from sa import tasks
+    info = tasks.analyse_cube(prog, "xcubes", "xcube")
+    where = info.fi.fq
+    entries = list(info.callbacks) + list(info.serial_calls)
+    if not entries:
+        rep.undecided("R-C03-g", where, "task activations", "no task function dispatched from calculate (anchor vanished)")
+        return
+    for entry in entries:
+        kind = "pooled" if entry in info.callbacks else "serial"
+        ers = tasks.early_returns(info, entry)
+        fills = [e for e in tasks.task_events(info, entry) if e.kind == "call" and e["method"] == "fill"]
+        if not ers:
+            rep.check(bool(fills), "R-C03-g", "%s@%d" % (where, entry.line), "%s task: falls through to its fill calls" % kind, "%d fill call site(s), no early return" % len(fills), "the task calls no fill()")
+        for ev, extra in ers:
+            rep.undecided("R-C03-g", "%s@%d" % (where, ev.line), "%s task: early return" % kind, "a sub-cube whose task returns early keeps its initial (missing) cells; cannot decide whether that is right (guards: %s)" % [tm.show(c)[:40] for c, p in extra])
+
+
 def main(tier):
     rep = core.Report("C03", level="other", rules=RULES, tier=tier,
                       declined="numerical agreement of the two cubes and a direct group-by within 1e-9 (values, floating point); decided: sibling definitions agree in the aggregate algebra")
@@ -206,6 +226,12 @@ def main(tier):
     # the predicate tables only agree in effect if the index cube's differenced floating-point counters
     # are snapped to zero before an exact test (the array cube fills every cell directly)
     AT.rule_exact_tests(prog, C, rule="R-C03-f")
+    CT = AT.Collector()
+    nt = AT.rule_zero_snap_tolerance(prog, CT, "R-C03-h")
+    for rule, status, where, cons, detail, wit in CT.items:
+        rep.add(rule, where, cons, status, detail, True, wit)
+    rep.floor("R-C03-h", 4, nt)
+    rule_g(prog, rep)
     for rule, status, where, cons, detail, wit in C.items:
         rep.add(rule, where, cons, status, detail, True, wit)
     for m in list(AT._cache.values()):
